@@ -49,15 +49,18 @@ void World::fail(const std::string &oracle, const std::string &detail) {
     viol.arg_class = arg_class; viol.detail = detail;
 }
 
+double g_t_obs = 0, g_t_models = 0, g_t_live = 0, g_t_exec = 0, g_t_gather = 0;
 Node World::obs() {
-    ObsOpts o; o.check_lookups = true; o.check_dims = true; o.read_data = true;
+    double t0__ = wall_now();
+    struct T__ { double t0; ~T__() { g_t_obs += wall_now() - t0; } } t__{t0__};
+    // the lookup-agreement predicates (several lookups per entity, each a scan of its siblings) are evaluated on every observation in
+    // the lane that owns them and on the first observation of every session elsewhere
+    ObsOpts o; o.check_lookups = lane_prop == "C03" || lookups_due; o.check_dims = true; o.read_data = true;
+    lookups_due = false;
     std::vector<std::string> v;
     Node d = observe(f, o, &v, &getters);
-    cnt.inc("observe");
-    if (!v.empty() && !viol.set) {
-        std::string orc = v[0].substr(0, v[0].find(' '));
-        fail(orc, v[0]);
-    }
+    cnt.inc("observe"); if (o.check_lookups) cnt.inc("observe.with_lookups");
+    for (size_t i = 0; i < v.size() && i < 4; i++) fail(v[i].substr(0, v[i].find(' ')), v[i]);
     return d;
 }
 
@@ -71,7 +74,7 @@ bool World::open_file(int m, bool create) {
         FileMode fm = create ? FileMode::Overwrite : (m ? FileMode::ReadOnly : FileMode::ReadWrite);
         Compression comp = plan.swarm.file_compression ? Compression::DeflateNormal : Compression::None;
         f = File::open(path, fm, "hdf5", comp);
-        is_open = true; mode = m; session++;
+        is_open = true; mode = m; session++; lookups_due = true;
         cnt.inc(m ? "open.ro" : (create ? "open.create" : "open.rw"));
         if (m == 1) { ro_tracking = true; ro_bytes = pre_bytes; ro_writes0 = w0; ro_wopens0 = wo0; }
         return true;
@@ -375,7 +378,8 @@ static void ids_oracles(World &w, const Node &doc) {
 
 static void after_op(World &w, const Op &op, int rc) {
     if (!w.is_open || w.failed()) return;
-    bool need = op_modifies(op.kind) || rc == 1 || !w.have_last;
+    // an operation that was skipped (nothing to address) made no call that could change anything
+    bool need = (op_modifies(op.kind) && rc != 2) || rc == 1 || !w.have_last;
     if (!need) return;
     Node doc = w.obs();
     std::string where;
@@ -425,8 +429,8 @@ static void after_op(World &w, const Op &op, int rc) {
         }
         ids_oracles(w, doc);
     }
-    w.post_models(doc);
-    w.check_live(doc);
+    { double t0 = wall_now(); w.post_models(doc); g_t_models += wall_now() - t0; }
+    { double t0 = wall_now(); w.check_live(doc); g_t_live += wall_now() - t0; }
     if (w.failed()) return;
     w.state_hashes.insert(node_hash(doc, true));
     w.last = doc; w.have_last = true;
@@ -479,12 +483,14 @@ void World::run(const Plan &p, const std::string &d) {
         bool ro_guard = is_open && mode == 1 && op_modifies(op.kind);
         std::map<std::string, ArrModel> s_arr; std::map<std::string, std::vector<DimModel> > s_dims; std::map<std::string, PropModel> s_prop; std::map<std::string, FrameModel> s_frame;
         if (ro_guard) { s_arr = arr; s_dims = dims; s_prop = prop; s_frame = frame; }
+        double t0x = wall_now();
         try {
             rc = exec(op);
         } catch (const std::exception &e) {
             // an exception escaping an op's own handling: treated as "threw"
             rc = 1;
         }
+        g_t_exec += wall_now() - t0x;
         if (ro_guard && is_open && mode == 1) { arr = s_arr; dims = s_dims; prop = s_prop; frame = s_frame; }   // nothing can have changed on a ReadOnly file (checked below)
         evh.u64((uint64_t) rc); evh.u64(fileless);
         cnt.inc(std::string("op.") + op_name(op.kind) + (rc == 0 ? ".ok" : rc == 1 ? ".threw" : ".skipped"));
@@ -498,6 +504,7 @@ void World::run(const Plan &p, const std::string &d) {
     }
     if (!failed() && is_open) { cur = (int) plan.ops.size(); close_file(false, 0); }
     cnt.inc("sim_seconds", (uint64_t) (clock_now() > sim_start ? clock_now() - sim_start : 0));
+    if (getenv("NIXSIM_PROF")) fprintf(stderr, "PROF obs=%.2f models=%.2f live=%.2f exec(incl. reopen obs)=%.2f\n", g_t_obs, g_t_models, g_t_live, g_t_exec);
 }
 
 // ---------------------------------------------------------------------------------------------
